@@ -442,3 +442,16 @@ Example C12_padded_order :
   /\ map h_weight (sort_hooks (hooks_for PreInstall (hooks_of_docs pad_docs))) = [0; 8; 9; 10]%Z.
 Proof. exact pad_order. Qed.
 Print Assumptions C12_padded_order.
+
+(* the watch / log-fetch sequence of an operation ([op_levs]: execHook's two call sites of
+   outputLogsByPolicy) on two Job / Pod hooks and a ConfigMap hook *)
+Example C12_log_fetch_examples :
+  op_levs (hooks_of_docs log_docs) PreInstall PostInstall [("Job/hj", true); ("Pod/hp", true); ("ConfigMap/hc", true)]
+  = [LWatch "Job/hj" true; LWatch "Pod/hp" true; LWatch "ConfigMap/hc" true;
+     LFetch (LogByField "metadata.name=hp"); LOut; LFetch (LogByLabel "job-name=hj"); LOut]
+  /\ op_levs (hooks_of_docs log_docs) PreInstall PostInstall [("Job/hj", true); ("Pod/hp", false)]
+     = [LWatch "Job/hj" true; LWatch "Pod/hp" false]
+  /\ op_levs (hooks_of_docs log_docs) PreInstall PostInstall [("Job/hj", false)]
+     = [LWatch "Job/hj" false; LFetch (LogByLabel "job-name=hj"); LOut].
+Proof. exact log_fetch_examples. Qed.
+Print Assumptions C12_log_fetch_examples.
